@@ -60,7 +60,7 @@ pub fn run(m: &mut Module) {
 /// a global. The segments and globals that did so may have just been removed,
 /// so declare the functions that would otherwise be left undeclared in a new
 /// declared element segment.
-fn declare_referenced_funcs(m: &mut Module) {
+pub(crate) fn declare_referenced_funcs(m: &mut Module) {
     struct RefFuncs(IdHashSet<Function>);
 
     impl<'instr> Visitor<'instr> for RefFuncs {
